@@ -14,6 +14,8 @@ CONSTANTS
   DHosts <- DHostsAll
   Fams <- Fams4
   PathSet <- PathsSmall
+  PathExts <- PathExtsSmall
+  RespExts <- RespExtsAll
   Pls <- PlsAll
   ReqAuths <- ReqAuthsAll
   RespMuts <- RespMutsAll
